@@ -168,6 +168,9 @@ func runTable(kv map[string]string) string {
 	}
 	var rows []string
 	for name, md := range g.Services {
+		if strings.HasPrefix(name, "grpc.reflection.") {
+			continue
+		}
 		in := md.GetInputType()
 		var fs []string
 		for _, f := range in.GetFields() {
@@ -298,7 +301,7 @@ func runScenSched(kv map[string]string) string {
 		for _, s := range m.Aggr.Samples()[s0:] {
 			ss = append(ss, c20lib.SampleText(s))
 		}
-		shots = append(shots, fmt.Sprintf("%d:%s:%s", i, orDash(strings.Join(cs, "+")), orDash(strings.Join(ss, "+"))))
+		shots = append(shots, fmt.Sprintf("%d#%s#%s", i, orDash(strings.Join(cs, "+")), orDash(strings.Join(ss, "+"))))
 	}
 	return "t=" + strings.Join(shots, ";")
 }
